@@ -222,6 +222,9 @@ class TPool(ClassModel):
             st.ghost["last_submitted"] = conn.t
             return [ex.res(st, fut)]
         if meth == "shutdown":
+            cf = kwargs.get("cancel_futures", args[1] if len(args) > 1 else SBool(False))
+            st.ghost["pool_cancelled_pending"] = Or(st.ghost.get("pool_cancelled_pending", FALSE), ex.truth(cf, st))
+            st.ghost["pool_shutdowns"] = st.ghost.get("pool_shutdowns", iv(0)) + 1
             return [ex.res(st, NONE)]
         return None
 
